@@ -615,7 +615,11 @@ func (m *machine) step() {
 		// delegate limit, prices and service charge of a blobber change while it serves allocations and holds delegates
 		b := w.Blobbers[rapid.IntRange(0, len(w.Blobbers)-1).Draw(t, "blobber")]
 		u := simstorage.BlobberUpdate{}
-		switch rapid.IntRange(0, 3).Draw(t, "setting") {
+		switch rapid.IntRange(0, 4).Draw(t, "setting") {
+		case 4:
+			// another delegate wallet (one of the clients, or back to the original one)
+			id := rapid.SampledFrom([]string{w.S.Clients[0].ID, w.S.Clients[1].ID, b.Delegate.ID}).Draw(t, "delegateWallet")
+			u.DelegateWallet = &id
 		case 0:
 			n := rapid.SampledFrom([]int{2, 1, 3, 10}).Draw(t, "numDelegates")
 			u.NumDelegates = &n
@@ -629,8 +633,99 @@ func (m *machine) step() {
 			sc := rapid.SampledFrom([]float64{0.1, 0, 0.3, 0.05}).Draw(t, "serviceCharge")
 			u.ServiceCharge = &sc
 		}
-		m.cur = curOp{op: op, provider: b, from: b.Delegate}
-		m.do(w.UpdateBlobberSettings(b.Delegate, b, u))
+		from := b.Delegate
+		if bl, found, _ := w.View().Blobber(b.ID()); found && bl.DelegateWallet != from.ID {
+			if cur := w.Wallet(bl.DelegateWallet); cur != nil {
+				from = cur
+			}
+		}
+		m.cur = curOp{op: op, provider: b, from: from}
+		m.do(w.UpdateBlobberSettings(from, b, u))
+	case "storageSettings":
+		// the contract owner changes one of the economic parameters (the oracles read the configuration from the state)
+		name := rapid.SampledFrom([]string{"blobber_slash", "stakepool.kill_slash", "cancellation_charge", "validator_reward", "blobber_slash", "stakepool.kill_slash"}).Draw(t, "setting")
+		val := rapid.SampledFrom([]string{"0", "0.1", "0.5", "1", "0.025"}).Draw(t, "value")
+		if o := m.do(w.UpdateSettings(nil, map[string]string{name: val})); ok(o) {
+			m.do(w.CommitSettingsChanges())
+		}
+	case "fillAlloc":
+		// one marker that fills what is left of a blobber's share of an allocation
+		a := m.pickAlloc(true)
+		if a == nil {
+			return
+		}
+		al, found, _ := w.View().Allocation(a.id)
+		if !found || len(al.Blobbers) == 0 {
+			return
+		}
+		ba := al.Blobbers[rapid.IntRange(0, len(al.Blobbers)-1).Draw(t, "blobberOfAlloc")]
+		b := w.Blobber(ba.BlobberID)
+		free := ba.Size - ba.Stats.UsedSize
+		if b == nil || free <= 0 {
+			return
+		}
+		size := free / int64(rapid.SampledFrom([]int{1, 2, 1, 3}).Draw(t, "part"))
+		if size <= 0 {
+			return
+		}
+		m.cur = curOp{op: op, alloc: a, provider: b, from: b.Op, wasOpen: a.open}
+		p := simstorage.WriteParams{AllocID: a.id, Blobber: b, Signer: a.owner, Size: size}
+		m.onApplied = func(o sim.Outcome) {
+			if ok(o) {
+				a.uploads[b.ID()] += size
+			}
+		}
+		m.do(w.CommitConnection(p))
+	case "replaceChallenged":
+		// replace (or just remove funds from) a blobber that has open or failed challenges on an allocation
+		var cands []struct {
+			a *alloc
+			b *simstorage.Provider
+		}
+		v := w.View()
+		for _, a := range m.openAllocs() {
+			al, found, _ := v.Allocation(a.id)
+			if !found {
+				continue
+			}
+			for _, ba := range al.Blobbers {
+				if ba.Stats.OpenChallenges > 0 || ba.Stats.FailedChallenges > 0 || ba.ChallengePoolIntegralValue > 0 {
+					if b := w.Blobber(ba.BlobberID); b != nil {
+						cands = append(cands, struct {
+							a *alloc
+							b *simstorage.Provider
+						}{a, b})
+					}
+				}
+			}
+		}
+		if len(cands) == 0 {
+			return
+		}
+		c := cands[rapid.IntRange(0, len(cands)-1).Draw(t, "challenged")]
+		al, _, _ := v.Allocation(c.a.id)
+		in := map[string]bool{}
+		for _, b := range al.Blobbers {
+			in[b.BlobberID] = true
+		}
+		var repl []*simstorage.Provider
+		for _, b := range w.Blobbers {
+			if !in[b.ID()] {
+				repl = append(repl, b)
+			}
+		}
+		if len(repl) == 0 {
+			return
+		}
+		p := simstorage.UpdateParams{From: c.a.owner, AllocID: c.a.id, AddBlobber: repl[rapid.IntRange(0, len(repl)-1).Draw(t, "add")], RemoveBlobber: c.b,
+			Lock: currency.Coin(rapid.SampledFrom([]uint64{0, 5 * zcn}).Draw(t, "lock"))}
+		m.cur = curOp{op: op, alloc: c.a, from: p.From, provider: c.b, wasOpen: c.a.open}
+		m.onApplied = func(o sim.Outcome) {
+			if ok(o) {
+				delete(c.a.uploads, c.b.ID())
+			}
+		}
+		m.do(w.UpdateAllocation(p))
 	case "blockRewards2":
 		// move to the next round at which the contract pays block rewards, then trigger them
 		period := int64(30)
